@@ -1,2 +1,3 @@
 //! Reference models, independent of the implementation under test.
 pub mod buckets;
+pub mod node;
